@@ -63,7 +63,8 @@ def _cases(draw, tier):
         opts = draw(strategies.option_sets(inst, min_crit=0, max_crit=2, twopl=True, stab=True))
         return {'kind': 'lp', 'inst': inst, 'opts': opts, 'salt': salt,
                 'choices': draw(strategies.choice_lists), 'mode': 'eb'}
-    return {'kind': 'checker', 'inst': inst}
+    prior = draw(strategies.siblings(inst)) if pct(draw) < 15 else None
+    return {'kind': 'checker', 'inst': inst, 'prior': prior}
 
 
 def strategy(tier):
@@ -146,6 +147,17 @@ def run_case(case):
         m = case['maps']
         inst, lift = strategies.embed(case['inst'], m['smap'], m['pmap'], m['lmap'])
         case = dict(case, _lift=lift)
+    if case.get('prior'):
+        # another Model in the same process is asked about the same assignments first
+        pm = solverio.make_solver(['-f', solverio.write_instance(
+            refmodel.render(case['prior']), 'prior.txt'), '-na', str(inst['na']), '-twopl']).model
+        po = refmodel.Oracle(case['prior'], True)
+        for M in po.assignments():
+            try:
+                pm.check_stability([None if not p else next(
+                    pr for pr in pm.pairs[i] if pr.projectID == p) for i, p in enumerate(M)])
+            except Exception:
+                pass
     text = refmodel.render(inst)
     path = solverio.write_instance(text)
     argv = ['-f', path, '-na', str(inst['na']), '-twopl']
@@ -187,6 +199,8 @@ def run_case(case):
         if any(lc[k] == 0 and I['luq'][k] == 0 for k in range(o.n3)) or \
                 any(pc[j] == 0 and I['puq'][j] == 0 for j in range(o.n2)):
             labels.add('full_without_assignee')
+    if case.get('prior'):
+        labels.add('prior_sibling_model')
     labels.update(l for l in strategies.instance_labels(inst)
                   if l.startswith(('ties', 'shared', 'tight', 'zero', 'na=')))
     return Result(nstable > 0 and nunstable > 0, sorted(labels),
